@@ -33,7 +33,9 @@ TRUSTED = [
     "droplet._get_phase_field and scipy.ndimage.binary_dilation are used to recompute region and deviation (rendering is C03's subject)",
 ]
 ASSUME = [
-    "cost comparison: the two deviations are evaluated in binary64; relative slack 1e-9; the optimiser sees intensities in units of the "
+    "cost comparison: the two deviations are evaluated in binary64; relative slack 1e-9 plus the derived rounding bound 2 sqrt(N dev) e "
+    "+ N e^2 with e = 4 eps max|normalised term| (the implementation works in units of the intensity range, the recomputation in image "
+    "units; relevant only when an offset dwarfs the range: levels -1 and -1 + 3e-10 leave residuals known to 4e-7); the optimiser sees intensities in units of the "
     "intensity range |vmax - vmin| (repair F34): recorded costs are compared with deviations divided by its square, fitted levels are "
     "multiplied by it",
     "a start ON a bound -- for scipy: closer to it than rstep = 1e-10*max(1,|bound|), e.g. a fitted intensity range below 1e-10 -- is moved inside by scipy before the first evaluation; the cost premise is checked with slack 1e-6*(cost0+1) there and exactly otherwise",
@@ -57,7 +59,7 @@ RULE = ("one evaluation = one refine_droplet call recorded end to end; main stre
         "is a fixed-point case (image rendered from the candidate, levels supplied); amplitude vectors of length 0, 1, 2, 3, 4, 6; "
         "dimension stream (notes/input_dimensions.md, one named recipe per case, own PRNG): grid geometry (entirely negative / centred / "
         "positive boxes, spacing ratio 2-3 and cell counts 3:1 in both axis orders, narrow finely sliced and flat wide cylinders, dz >> dr "
-        "and dz << dr, 1-cell and 2-cell axes, inner radius > 0), active bounds (image whose optimum pushes the LAST amplitude beyond +-1 "
+        "and dz << dr, 1-cell and 2-cell axes, annular polar / spherical grids with a core of 0.5, 1, 2, 3, 4, 8, 16 cells removed), active bounds (image whose optimum pushes the LAST amplitude beyond +-1 "
         "for 1, 2, 3, 4, 6 amplitudes; radius -> 0; width -> 0; fitted vmin / vrng onto each of their four bounds), boundary candidates "
         "(radius 0, width 0, exactly on periodic / non-periodic faces and corners, outside non-periodic faces, amplitude exactly +-1, all "
         "zero, last only, on / off the symmetry locus), image (float32, int64, int16, uint8, int8, vmin > vmax, constant, copied / unpickled "
